@@ -52,12 +52,18 @@ def worker(arg):
             succeeded = None
             try:
                 if c["api"] == "files":
-                    direct, _tr = pydsdl.read_files([target], roots, allow_unregulated_fixed_port_id=True)
+                    # the same designation as str / pathlib.Path, in a list / a tuple / as a single value / a one-shot iterable
+                    from pathlib import Path
+                    form = core.pick(block, "c15form", 4)
+                    a_t, a_r = ([target], list(roots)) if form == 0 else ([Path(target)], [Path(r) for r in roots]) if form == 1 \
+                        else ((Path(target),), tuple(roots)) if form == 2 else (target, (Path(r) for r in list(roots)))
+                    direct, _tr = pydsdl.read_files(a_t, a_r, allow_unregulated_fixed_port_id=True)
                     t = direct[0] if len(direct) == 1 else None
                     if t is None:
                         diff.append(("read_files returned %d direct types" % len(direct),))
                 else:
-                    res = pydsdl.read_namespace(roots[0], allow_unregulated_fixed_port_id=True)
+                    from pathlib import Path
+                    res = pydsdl.read_namespace(Path(roots[0]) if core.pick(block, "c15form", 2) else roots[0], allow_unregulated_fixed_port_id=True)
                     t = res[0] if len(res) == 1 else None
                     if t is None:
                         diff.append(("read_namespace returned %d types" % len(res),))
@@ -163,7 +169,7 @@ def run(ctx):
                        "root names are unique along each path; no two roots contain the same relative target"]
     ctx.note("absolute targets with a RELATIVE root path are not inferred (PathInferenceError, an InvalidDefinitionError): not "
              "among the documented combinations, so clause (2) applies")
-    c02.run_cfg(ctx, "Paths", "Paths.cfg", worker, "paths")
+    c02.run_cfg(ctx, "Paths", "Paths.cfg" if ctx.tier == "quick" else "Paths_thorough.cfg", worker, "paths")
     items = [(n, False, w) for n in MALFORMED + MALFORMED_DIRS for w in ("target", "lookup")] + [(n, True, "target") for n in VALID]
     c02.consume(ctx, core.pmap(malformed_worker, items, chunksize=4), "mal")
     ctx.sample({"cwd": "/ws", "target": "proj/animals/felines/7509.Tabby_2.1.0.dsdl", "roots": ["animals", "/ws/proj/plants"],
